@@ -322,7 +322,7 @@ type txPair struct {
 	cacheOK bool                  // ffldb's metadata cache was empty at Begin (single-source iterators)
 	id      int
 	managed bool
-	prunes  int // PruneBlocks calls that reported deletions in this tx
+	prunes  int                   // PruneBlocks calls that reported deletions in this tx
 	pruned  map[kvmodel.Hash]bool // blocks whose files this transaction's commit deletes
 }
 
@@ -411,7 +411,9 @@ func (e *env) cacheEmpty() bool {
 // lenientErr is returned out of a managed closure in fault mode.
 type lenientErr struct{ err error }
 
-func (l lenientErr) Error() string { return "real operation failed under fault injection: " + l.err.Error() }
+func (l lenientErr) Error() string {
+	return "real operation failed under fault injection: " + l.err.Error()
+}
 
 // expect compares an error with the model's admissible set.
 func (e *env) expect(op Op, want kvmodel.Code, err error, sig string) {
